@@ -403,10 +403,27 @@ def body_C15(ctx):
             seen.add(sig)
             ctx.out.violation({"macro_kind": r.kind, "source": r.src, "what": why, "real_parse": r.parse, "real_gen": r.gen,
                                "replay_cmd": "./check C15 --replay <this file>"}, found_input=True, signature=None)
+    # the parser model behind `expansion_total` / `expansion_terminates` (Props/C15) vs the real parser, with syn's answers:
+    # the invalid list, the malformed list and mutated programs (outcome class and structure)
+    sub = [c for c in cases if c[3] in ("invalid", "malformed")] + [c for c in cases if c[3] == "mutated"][:ctx.n(600, 6000)]
+    preals = k1.run_real(sub, with_oracle=True)
+    np_, pdiffs = k1.compare_parse(preals)
+    ctx.out.coverage["k1_parse_compared"] = np_
+    for r in preals:
+        ctx.dist["parse:" + k1.parse_class(r.parse)] += 1
+    if pdiffs:
+        ctx.broken.append(("K1-parse: parser model (Parse.lean) vs real parser", [dict(d.to_json(), model=(d.model_out or "")[:600]) for d in pdiffs[:3]]))
+    # premise of `expansion_terminates`: syn does not accept the empty token stream as an expression
+    rc, outp, err = runner.sh([runner.HARNESS, "synfacts"])
+    facts = dict(l.split("\t") for l in outp.splitlines() if "\t" in l)
+    ctx.out.coverage["syn_facts"] = facts
+    if rc != 0 or facts.get("empty_expr_valid") != "false":
+        ctx.broken.append(("premise of expansion_terminates: syn::parse2::<Expr>(empty) must fail", outp + err[-300:]))
     ctx.out.coverage["rule"] = ("structurally invalid inputs of the property's list (all must be rejected), duplicated options at every "
                                 "position of every option permutation, hand-written malformed inputs, random programs and 2 rounds of token "
                                 "mutations; oracle on the real expander: no panic other than the 4 whitelisted configuration rejections, "
-                                "accepted output parses as syn::Expr; every case also compared with the model's outcome class and tokens")
+                                "accepted output parses as syn::Expr; every case also compared with the model's outcome class and tokens; "
+                                "K1-parse: the parser model, given syn's answers, vs the real parser on the invalid / malformed / mutated inputs")
 
 
 SYNC_KINDS = ["a0t0s0", "a0t1s0", "a0t0s1", "a0t1s1"]
